@@ -190,6 +190,57 @@ SCENARIOS.append(('lambda_with_closure', (lambda k: auto_config.auto_config(
     lambda a1=2: k(s1=[g4(s1=a1), g4(s1=a1)])))(ClsA), (), {}, []))
 
 
+import logging as _logging
+
+_LOG = _logging.getLogger('c11scen')
+
+
+class LayerMaker:
+
+  def __init__(self, size=0):
+    self.size = size
+
+  @classmethod
+  def of_size(cls, size):
+    return cls(size=size)
+
+  def __eq__(self, other):
+    return type(other) is LayerMaker and other.size == self.size
+
+
+@scenario()
+@auto_config.auto_config
+def temporaries_after_exempt_calls():
+  # bound methods are temporaries: an exempted one (logger method) is followed by configurable ones
+  _LOG.debug('building')
+  a = LayerMaker.of_size(3)
+  _LOG.debug('again')
+  b = LayerMaker.of_size(4)
+  return ClsA(s1=a, s2=[b, LayerMaker.of_size(5)])
+
+
+def var_layers(*layers, k=0):
+  return ('layers', layers, k)
+
+
+def pos_only(a, b=2, /):
+  return ('pos', a, b)
+
+
+@scenario()
+@auto_config.auto_config
+def factories_bound_positionally():
+  return arg_factory.partial(ClsA, s1=functools.partial(var_layers, 8, 16, 32),
+                             s2=functools.partial(pos_only, 7), s3=functools.partial(var_layers, 1, k=2))
+
+
+@scenario()
+@auto_config.auto_config
+def tagged_none_and_falsy_values():
+  return ClsA(s1=auto_config.with_tags(None, T0), s2=[auto_config.with_tags(0, T1), auto_config.with_tags('', [T2])],
+              s3=g4(s1=auto_config.with_tags(False, T0), s2=auto_config.with_tags(None, [T0, T2])))
+
+
 @scenario()
 @auto_config.auto_config(experimental_always_inline=False)
 def not_inlined_root():
